@@ -372,6 +372,8 @@ def small_cases(ctx):
                                         coeffs=True if s % 2 else None, extras=True if s % 2 else None))
             e = emptied(full)
             if e is None:
+                ctx.fail("deleting all atoms of a generated structure raised (the N = 0 case could not be built)",
+                         {"op": "replicate", "a": full, "dims": dims, "note": "del a[all] failed"})
                 continue
             out.append((e, full, dims, ck, "N0-tables"))
         elif kind == "bare":
